@@ -220,7 +220,9 @@ class Tr:
                     bad(e, "membership in a tuple of non-integers")
             else:
                 b, tb = self.expr(r, env)
-                if ta == "bytes" and tb == "lbytes":
+                if ta == "bytes" and tb == "bytes":
+                    t = f"(contains {a} {b})"          # bytes substring test
+                elif ta == "bytes" and tb == "lbytes":
                     t = f"(in_set {a} {b})"
                 elif ta == "bytes" and tb == "headers":
                     t = f"(hcontains {a} {b})"
